@@ -2206,8 +2206,12 @@ class Parameters:
             updates[pname] = new_val
 
         with edit_constant(self_.self):
-            with _syncing(self_.self, updates):
-                self_.update(updates)
+            # Watchers are called once the syncing scope has been left: a
+            # plain value they assign to a linked parameter is an override
+            # like any other and ends that link.
+            with batch_call_watchers(self_.self):
+                with _syncing(self_.self, updates):
+                    self_.update(updates)
 
     def _resolve_ref(self_, pobj, value):
         is_gen = inspect.isgeneratorfunction(value)
@@ -2262,16 +2266,18 @@ class Parameters:
                 async for new_obj in awaitable:
                     if superseded():
                         break
-                    with _syncing(self_.self, (pname,)):
-                        self_.update({pname: new_obj})
+                    with batch_call_watchers(self_.self):
+                        with _syncing(self_.self, (pname,)):
+                            self_.update({pname: new_obj})
             else:
                 try:
                     new_obj = await awaitable
                 except Skip:
                     return
                 if not superseded():
-                    with _syncing(self_.self, (pname,)):
-                        self_.update({pname: new_obj})
+                    with batch_call_watchers(self_.self):
+                        with _syncing(self_.self, (pname,)):
+                            self_.update({pname: new_obj})
         finally:
             # Ensure we clean up but only if the task matches the currrent task
             if async_refs.get(pname) is current_task:
